@@ -29,6 +29,9 @@ EXPLANATION = (
 EXPLANATION += (
     " ADDED: C01.4 (second half): the self-test of the reduced-I/O reader compares read_line(0) exactly (array_equal) with the source's inline accessor - the access path of the segyio fallback - not with traces in file order. C01.7 evaluates the body of pad() over the two residue classes of n % m whatever its spelling. C01.9: in every producer the per-group real count (if/else, conditional expression or min()) equals min(bs, n - g*bs) in the four cases {n % bs zero / non-zero} x {last / earlier group}, decided by the signs of polynomial differences over non-negative atoms (n = bs*q + r); the plane read on the padding side of `i < count` is the last real plane of the group."
 )
+EXPLANATION += (
+    " C01.10: the reduced-I/O reader's read_line(i) is decided for every i (the self-test only exercises i = 0): offset = file header + i*n_xl*(4*n_samp + trace header), length = n_xl*(4*n_samp + trace header), rows of n_samp + 60 words with the first 60 dropped, header h at h*(trace header + 4*n_samp)."
+)
 ASSUMPTIONS = [
     'ZFP fixed-rate coding is deterministic and block-local; write_header=False adds nothing to the stream',
     'np.pad(mode=\'edge\') replicates the last sample; numpy slice assignment broadcasts as documented',
